@@ -242,6 +242,18 @@ class EqTok(object):
     __hash__ = None
 
 
+class _Item(types.SimpleNamespace):
+    """assembly item of the gate contract: equal when name and operand are equal"""
+
+    def __eq__(self, other):
+        return self.disasm == other.disasm and self.value == other.value
+
+    def __ne__(self, other):
+        return not self.__eq__(other)
+
+    __hash__ = None
+
+
 class GateCompare(Case):
     """compare_asm_block_asm_format answers True only if the specification checker answers True and the non-optimizable
     prefix and suffix items coincide; the new block's name is restored"""
@@ -255,7 +267,9 @@ class GateCompare(Case):
             it.trace.append(('sfs', block, block.block_name))
             if it.cfg['raises'].get(block.tag):
                 raise Boom("analysis impossible")
-            return {"syrup_contract": Marker('sfs-of-' + block.tag)}, None
+            # the reported sub-blocks: the last entry of each but the final one is the instruction the block is split at
+            names = it.cfg['split_names'][block.tag]
+            return {"syrup_contract": Marker('sfs-of-' + block.tag)}, [["OP", nm] for nm in names] + [["OP"]]
 
         def st_verify(it, old, new):
             it.trace.append(('verify', old, new))
@@ -269,8 +283,15 @@ class GateCompare(Case):
     def run(self, H):
         v, e1, e2 = H.bool('verdict'), H.bool('prefix_equal'), H.bool('suffix_equal')
         who = H.choice('who_raises', [None, 'old', 'new', 'verify'])
-        H.it.cfg = dict(verdict=v, raises={who: True})
+        # instructions the blocks are split at: same / other name / other operand (items of constants.split_block)
+        sp = H.choice('split_instructions', ['same', 'other-name', 'other-operand', 'none'])
+        names = dict(old=["LOG1"], new=["LOG1"] if sp != 'other-name' else ["LOG2"]) if sp != 'none' else dict(old=[], new=[])
+        H.it.cfg = dict(verdict=v, raises={who: True}, split_names=names)
         old, new = Blk('old'), Blk('new')
+        mk = lambda d, val: _Item(disasm=d, value=val)
+        old.instructions = [mk("ADD", None)] + ([mk("ASSIGNIMMUTABLE", "1")] if sp != 'none' else [])
+        new.instructions = [mk("SUB", None)] + ([mk("ASSIGNIMMUTABLE", "1" if sp != 'other-operand' else "2")] if sp != 'none' else [])
+        split_same = sp in ('same', 'none')
         old.instructions_initial_bytecode = lambda: EqTok(e1)
         new.instructions_initial_bytecode = lambda: EqTok(e1)
         old.instructions_final_bytecode = lambda: EqTok(e2)
@@ -290,7 +311,8 @@ class GateCompare(Case):
             H.check('analysis-failure=>not-equal', snot(acc))
             return
         H.check('True=>checker-True-and-prefix/suffix-equal', implies(acc, sand(v, e1, e2)))
-        H.check('checker-and-items-agree=>True', implies(sand(v, e1, e2), acc))
+        H.check('True=>the-instructions-the-block-is-split-at-coincide', implies(acc, split_same))
+        H.check('checker-and-items-agree=>True', implies(sand(v, e1, e2, split_same), acc))
         tr = H.it.trace
         sf = [t for t in tr if t[0] == 'sfs']
         H.check('new-block-analysed-under-alreadyOptimized-name', any(t[1] is new and t[2] == "alreadyOptimized_new" for t in sf)
